@@ -1,4 +1,186 @@
-import FsDb.Spec.Iso
-/-! # C13 (theorems under construction) -/
+import FsDb.Proofs.Refine
+import FsDb.Proofs.SpecInv
+/-!
+# C13 — A finished transaction is finished: later use fails and changes nothing
+
+On the specification (to which the concrete model is tied by `C02_refinement` /`Refine.run`,
+which includes the registry check of `store.Guarded` on the write path).
+-/
 namespace FsDb.C13
+open FsDb Spec
+
+/-- a transaction id that is not open (finished, or never begun) and is not the autocommit id -/
+def Closed (s : State) (t : Nat) : Prop := t ≠ mainTx ∧ find s t = none
+
+/-- Every further Get, GetKeys, Set (SetReader, Create), Delete or Commit through a finished or
+    unknown transaction fails with ErrTxNotFound; a further Rollback is accepted; none of them
+    changes the state — hence nobody, at any level, now or after a restart, can observe anything. -/
+theorem C13_late_use (s : State) (t : Nat) (h : Closed s t) (k : Key) (n : Nat) :
+    Spec.step s (.get t k) = (s, .err .txNotFound) ∧
+    Spec.step s (.keys t) = (s, .err .txNotFound) ∧
+    Spec.step s (.set t k n) = (s, .err .txNotFound) ∧
+    Spec.step s (.del t k) = (s, .err .txNotFound) ∧
+    Spec.step s (.commit t) = (s, .err .txNotFound) ∧
+    (Spec.step s (.rollback t)).2 = .ok ∧ (Spec.step s (.rollback t)).1 = s := by
+  obtain ⟨htm, hf⟩ := h
+  have hctx : ctxOf s t = none := by simp [ctxOf, htm, hf]
+  refine ⟨?_, ?_, ?_, ?_, ?_, rfl, ?_⟩
+  · simp [Spec.step, Spec.get, hctx]
+  · simp [Spec.step, Spec.getKeys, hctx]
+  · simp [Spec.step, Spec.set, hctx]
+  · simp [Spec.step, Spec.write, htm, hf]
+  · simp [Spec.step, Spec.commit, htm, hf]
+  · show Spec.close s t = s
+    unfold Spec.close
+    have : s.open_.filter (fun x => decide (x.id ≠ t)) = s.open_ := by
+      rw [List.filter_eq_self]; intro x hx
+      have := List.find?_eq_none.mp hf x hx
+      simpa using this
+    rw [this]
+
+theorem find_close (s : State) (t : Nat) : find (Spec.close s t) t = none := by
+  unfold find Spec.close
+  rw [List.find?_eq_none]
+  intro x hx
+  have := (List.mem_filter.mp hx).2
+  simpa using this
+
+/-- Once Commit (successful or failed with a serialization error) or Rollback has returned, the
+    transaction is closed. -/
+theorem C13_closed_after_end (s : State) (t : Nat) (htm : t ≠ mainTx) :
+    Closed (Spec.step s (.commit t)).1 t ∧ Closed (Spec.step s (.rollback t)).1 t := by
+  refine ⟨⟨htm, ?_⟩, ⟨htm, find_close s t⟩⟩
+  show find (Spec.commit s t).1 t = none
+  unfold Spec.commit
+  simp only [htm, if_false]
+  cases hf : find s t with
+  | none => simpa using hf
+  | some tx =>
+    simp only
+    split
+    · exact find_close s t
+    · split
+      · exact find_close s t
+      · exact find_close s t
+
+def ids (s : State) : List Nat := s.open_.map (·.id)
+
+theorem find_none_iff (s : State) (t : Nat) : find s t = none ↔ t ∉ ids s := by
+  unfold find ids
+  rw [List.find?_eq_none]
+  simp only [List.mem_map, not_exists, not_and]
+  constructor
+  · intro h x hx e; have := h x hx; simp [e] at this
+  · intro h x hx; simpa using h x hx
+
+theorem ids_write (s : State) (t' : Nat) (k : Key) (val : Option Nat) : ids (Spec.write s t' k val).1 = ids s := by
+  unfold Spec.write ids
+  split
+  · simp
+  · split
+    · rfl
+    · simp only [addDom_open, List.map_map]
+      apply List.map_congr_left
+      intro x _
+      simp only [Function.comp]
+      split <;> rfl
+
+theorem ids_close_sub (s : State) (t' : Nat) : ∀ x ∈ ids (Spec.close s t'), x ∈ ids s := by
+  intro x hx
+  unfold ids Spec.close at hx
+  obtain ⟨y, hy, rfl⟩ := List.mem_map.mp hx
+  exact List.mem_map.mpr ⟨y, (List.mem_filter.mp hy).1, rfl⟩
+
+/-- … and it stays closed under every later operation except a `begin` of the same id (ids are
+    fresh uuids in the code; `C13_begin_fresh`). -/
+theorem C13_stays_closed (s : State) (t : Nat) (h : Closed s t) (op : Op)
+    (hop : ∀ l, op ≠ .begin t l) : Closed (Spec.step s op).1 t := by
+  obtain ⟨htm, hf⟩ := h
+  refine ⟨htm, ?_⟩
+  rw [find_none_iff] at hf ⊢
+  have close_ok : ∀ t', t ∉ ids (Spec.close s t') := fun t' hm => hf (ids_close_sub s t' t hm)
+  cases op with
+  | begin t' l =>
+    have htt : t' ≠ t := by intro e; subst e; exact hop l rfl
+    show t ∉ ids (Spec.begin s t' l).1
+    unfold Spec.begin
+    split
+    · exact hf
+    · unfold ids
+      simp only [List.map_append, List.map_cons, List.map_nil, List.mem_append, List.mem_singleton]
+      rintro (h1 | h1)
+      · exact hf h1
+      · exact htt h1.symm
+  | set t' k n =>
+    show t ∉ ids (Spec.set s t' k n).1
+    unfold Spec.set
+    split
+    · exact hf
+    · split
+      · exact hf
+      · rw [ids_write]; exact hf
+  | del t' k => show t ∉ ids (Spec.write s t' k none).1; rw [ids_write]; exact hf
+  | get _ _ => exact hf
+  | keys _ => exact hf
+  | commit t' =>
+    show t ∉ ids (Spec.commit s t').1
+    unfold Spec.commit
+    split
+    · exact hf
+    · simp only
+      split
+      · exact close_ok t'
+      · split
+        · exact close_ok t'
+        · exact close_ok t'
+  | rollback t' => exact close_ok t'
+  | gc =>
+    show t ∉ ids (if s.open_.isEmpty then { s with clock := s.clock + 1 } else s)
+    split <;> exact hf
+  | drain => exact hf
+  | reopen f => show t ∉ ids (Spec.reopen s f).1; simp [Spec.reopen, ids]
+  | tree => exact hf
+
+/-- Each Begin yields a transaction independent of all others: it is accepted only for an id that
+    is not open, and the new transaction starts with no writes of its own. -/
+theorem C13_begin_fresh (s : State) (t : Nat) (lvl : Level) (h : (Spec.step s (.begin t lvl)).2 = .ok) :
+    find s t = none ∧ ∃ x, find (Spec.step s (.begin t lvl)).1 t = some x ∧ x.level = lvl ∧ ∀ k, x.own k = none := by
+  have h' : (Spec.begin s t lvl).2 = .ok := h
+  unfold Spec.begin at h'
+  split at h'
+  · cases h'
+  · rename_i hc
+    have hnf : find s t = none := by
+      cases hf : find s t with
+      | none => rfl
+      | some x => exact absurd (Or.inr (by simp [hf])) hc
+    refine ⟨hnf, ⟨t, lvl, s.clock + 1, fun _ => none⟩, ?_, rfl, fun _ => rfl⟩
+    show find (Spec.begin s t lvl).1 t = _
+    unfold Spec.begin
+    rw [if_neg hc]
+    unfold find at hnf ⊢
+    simp only [List.find?_append, hnf]
+    simp
+
+/-- the same on the concrete model: through `Refine.step`, a late call answers ErrTxNotFound and
+    leaves the concrete state related to the *same* specification state -/
+theorem C13_late_use_concrete {c : Sys} {s : State} (h : R c s) (t : Nat) (hc : Closed s t) (k : Key) (n : Nat) :
+    (c.step (.set t k n)).2 = .err .txNotFound ∧ R (c.step (.set t k n)).1 s ∧
+    (c.step (.del t k)).2 = .err .txNotFound ∧ R (c.step (.del t k)).1 s ∧
+    (c.step (.get t k)).2 = .err .txNotFound ∧ (c.step (.commit t)).2 = .err .txNotFound ∧
+    R (c.step (.commit t)).1 s := by
+  obtain ⟨l1, _, l3, l4, l5, _, _⟩ := C13_late_use s t hc k n
+  have s1 := Refine.step h (.set t k n) rfl
+  have s2 := Refine.step h (.del t k) rfl
+  have s3 := Refine.step h (.get t k) rfl
+  have s4 := Refine.step h (.commit t) rfl
+  rw [l3] at s1; rw [l4] at s2; rw [l1] at s3; rw [l5] at s4
+  exact ⟨s1.1, s1.2, s2.1, s2.2, s3.1, s4.1, s4.2⟩
+
+/-- non-vacuity: the zombie-write history of corpus/seq_c13.txt on the specification -/
+example :
+    (Spec.run {} [.set 0 "k" 3, .begin 1 .ser, .set 1 "k" 12, .commit 1, .set 1 "k" 99, .del 1 "k",
+      .begin 2 .ru, .get 2 "k", .rollback 1]).2
+    = [.ok, .ok, .ok, .ok, .err .txNotFound, .err .txNotFound, .ok, .val 12, .ok] := by decide
+
 end FsDb.C13
